@@ -516,7 +516,7 @@ func checkC11(w *World) {
 			if !isCall || c.Call.IsInvoke() || staticCallee(c) != nil || len(c.Call.Args) < 1 {
 				return
 			}
-			if mi, isMI := c.Call.Args[0].(*ssa.MakeInterface); isMI && mi.X == ssa.Value(h.Fn.Params[0]) {
+			if mi, isMI := c.Call.Args[0].(*ssa.MakeInterface); isMI && mi.X == ssa.Value(ctxParam(h.Fn)) {
 				ownCtx = true
 			}
 		})
